@@ -263,6 +263,10 @@ class Scenario:
                 self.step_rpc(pre_start[0], 'startProcess', pre_start[1], False, ns='supervisor')
             for _ in range(sc.get('settle_rounds', 3)):
                 self.round()
+            if sc.get('busy_start'):
+                # a start sequence is in progress on the Master when the trigger arrives
+                self.step_rpc(sc['busy_start'][0], 'start_application', 'CONFIG', sc['busy_start'][1], False)
+                self.round()
             self.trigger_step = len(d.rec.steps)
             out = self.step_rpc(trig[1], trig[2], *trig[3])
             self.trigger_result = out
